@@ -3,7 +3,7 @@
 # every test in BASELINE.stable_pass must still pass.  Exit 0 iff so.
 unset MENPO_VERIF
 OUT=$(mktemp /tmp/menpo-baseline-XXXXXX.xml)
-(cd /repo && /venv/bin/python -m pytest -ra -q -p no:cacheprovider --timeout=900 --continue-on-collection-errors --junitxml="$OUT" >/dev/null 2>&1)
+(cd "${1:-/repo}" && /venv/bin/python -m pytest -ra -q -p no:cacheprovider --timeout=900 --continue-on-collection-errors --junitxml="$OUT" >/dev/null 2>&1)
 /venv/bin/python - "$OUT" <<'PY'
 import json, sys, xml.etree.ElementTree as ET
 base = json.load(open('/root/.vp/BASELINE.json'))
